@@ -583,6 +583,17 @@ func (x *c08Run) step(i, sym int) {
 				t.HoldWrites = true
 				s.AsyncWrite(payload, websocket.TypeText, func(e error) { calls++; err = e })
 				m.all = append(m.all, c08Owed{op, payload, "application frame"})
+				bigFirst := r.Chance(1, 3)
+				var second []byte
+				ycalls := 0
+				var yerr error
+				if bigFirst {
+					// ... a large second message is submitted before the Ping arrives: the flush that follows the first message
+					// starts with two frames queued, the first of them larger than 64 KiB
+					second = asciiBytes(r, r.Range(66000, 120000))
+					s.AsyncWrite(second, websocket.TypeText, func(e error) { ycalls++; yerr = e })
+					m.all = append(m.all, c08Owed{op, second, "application frame"})
+				}
 				ping := x.mkFrames(evPing)
 				want := x.modelReadFrame(&ping[0], t.End)
 				t.Feed(ping[0].f.Encode())
@@ -595,17 +606,19 @@ func (x *c08Run) step(i, sym int) {
 				x.checkReadOutcome("AsyncNextFrame", label+" ping during a held write", want, &ping[0], rf, rerr)
 				t.ReleaseOneWrite() // the message is out; the flush in flight goes on with the Pong, which is held
 				t.Pump()
-				second := asciiBytes(r, r.Intn(30))
-				ycalls := 0
-				var yerr error
-				s.AsyncWrite(second, websocket.TypeText, func(e error) { ycalls++; yerr = e })
+				if !bigFirst {
+					second = asciiBytes(r, r.Intn(30))
+					s.AsyncWrite(second, websocket.TypeText, func(e error) { ycalls++; yerr = e })
+				}
 				t.ReleaseWrites()
 				t.Pump()
 				if calls != 1 || ycalls != 1 || err != nil || yerr != nil {
 					x.fail("write-during-pong-in-flight", "%s: AsyncWrite, Ping read, AsyncWrite while the Pong is held: first write callback %d times (%v), second %d times (%v)", label, calls, err, ycalls, yerr)
 					return
 				}
-				m.all = append(m.all, c08Owed{op, second, "application frame"})
+				if !bigFirst {
+					m.all = append(m.all, c08Owed{op, second, "application frame"})
+				}
 				m.flush()
 				x.c.Count("writes_started_while_a_pong_is_in_flight", 1)
 				x.verify(name + "+ping+AsyncWrite-overlap " + label)
